@@ -76,13 +76,21 @@ class Deep:
         """Shutdown deep."""
         if not self.started:
             return
-        self.trigger_handler.shutdown()
-        self.task_handler.flush()
-        self.poll.shutdown()
+        # a failure in one step (e.g. a plugin that cannot shutdown) must not stop the remaining steps
+        self.__shutdown_step("trigger handler", self.trigger_handler.shutdown)
+        self.__shutdown_step("task handler", self.task_handler.flush)
+        self.__shutdown_step("poll", self.poll.shutdown)
         for plugin in self.config.plugins:
-            plugin.shutdown()
+            self.__shutdown_step("plugin %s" % plugin.name, plugin.shutdown)
         deep.logging.info("Deep is shutdown.")
         self.started = False
+
+    @staticmethod
+    def __shutdown_step(name, step):
+        try:
+            step()
+        except Exception:
+            deep.logging.exception("Failed to shutdown %s", name)
 
     def register_tracepoint(self, path: str, line: int, args: Dict[str, str] = None,
                             watches: List[str] = None,
